@@ -1597,6 +1597,9 @@ class Interp:
                 if v is not None and _is_closed(v) and \
                         not self._has_instance_store(c, attr):
                     return v
+        ra = getattr(self.prog, 'renamed_attr', None)
+        if ra and attr in ra:
+            attr = ra[attr]      # a method that was merely renamed
         return ('attr', b, attr)
 
     _store_cache = {}
